@@ -125,35 +125,7 @@ theorem slookup_supdate_ne (x y : Name) (v : SVal) (env : SEnv) (h : x ≠ y) :
       simp only [this]
       simp [slookup, ih]
 
-/-! ### the parser's analysis on flat bodies (no inline `if`, no nested function, no call) -/
-
-/-- operands without nested expression lists, function literals or calls -/
-def flat : Ex → Bool
-  | .lit _ => true
-  | .var _ => true
-  | .add a b => flat a && flat b
-  | .sub a b => flat a && flat b
-  | .lt a b => flat a && flat b
-  | .paren e => flat e
-  | _ => false
-
-/-- the names read by a flat expression -/
-def vars : Ex → List Name
-  | .var x => [x]
-  | .add a b => vars a ++ vars b
-  | .sub a b => vars a ++ vars b
-  | .lt a b => vars a ++ vars b
-  | .paren e => vars e
-  | _ => []
-
-/-- a line of a flat body: a flat expression or `x = flat expression` -/
-def flatLine : Ex → Bool
-  | .assign _ e => flat e
-  | e => flat e
-
-def flatBlock : List Ex → Bool
-  | [] => true
-  | l :: ls => flatLine l && flatBlock ls
+/-! ### set lemmas, line invariant -/
 
 theorem mem_ins (x y : Name) (xs : List Name) : y ∈ ins x xs ↔ y = x ∨ y ∈ xs := by
   unfold ins
@@ -185,120 +157,6 @@ theorem mem_union (xs ys : List Name) (y : Name) : y ∈ union xs ys ↔ y ∈ x
       · exact Or.inl (Or.inl rfl)
       · exact Or.inr h
 
-/-- a flat expression only adds its reads to the pending accesses -/
-theorem pe_flat : ∀ (e : Ex) (f : PFrame), flat e = true →
-    (pe e f).assigned = f.assigned ∧ (pe e f).nonLocals = f.nonLocals ∧ (pe e f).pendAsg = f.pendAsg
-    ∧ ∀ y, y ∈ (pe e f).pendAcc ↔ y ∈ f.pendAcc ∨ y ∈ vars e
-  | .lit _, f, _ => by simp [pe, vars]
-  | .var x, f, _ => by
-    simp only [pe, PFrame.access, vars, true_and]
-    intro y; rw [mem_ins]; simp [or_comm]
-  | .add a b, f, h => by
-    simp only [flat, Bool.and_eq_true] at h
-    obtain ⟨a1, a2, a3, a4⟩ := pe_flat a f h.1
-    obtain ⟨b1, b2, b3, b4⟩ := pe_flat b (pe a f) h.2
-    simp only [pe, vars]
-    refine ⟨b1.trans a1, b2.trans a2, b3.trans a3, fun y => ?_⟩
-    rw [b4, a4]; simp [or_assoc]
-  | .sub a b, f, h => by
-    simp only [flat, Bool.and_eq_true] at h
-    obtain ⟨a1, a2, a3, a4⟩ := pe_flat a f h.1
-    obtain ⟨b1, b2, b3, b4⟩ := pe_flat b (pe a f) h.2
-    simp only [pe, vars]
-    refine ⟨b1.trans a1, b2.trans a2, b3.trans a3, fun y => ?_⟩
-    rw [b4, a4]; simp [or_assoc]
-  | .lt a b, f, h => by
-    simp only [flat, Bool.and_eq_true] at h
-    obtain ⟨a1, a2, a3, a4⟩ := pe_flat a f h.1
-    obtain ⟨b1, b2, b3, b4⟩ := pe_flat b (pe a f) h.2
-    simp only [pe, vars]
-    refine ⟨b1.trans a1, b2.trans a2, b3.trans a3, fun y => ?_⟩
-    rw [b4, a4]; simp [or_assoc]
-  | .paren e, f, h => by
-    simp only [flat] at h
-    simpa [pe, vars] using pe_flat e f h
-  | .ite _ _ _, _, h => by simp [flat] at h
-  | .assign _ _, _, h => by simp [flat] at h
-  | .fn _ _, _, h => by simp [flat] at h
-  | .call _ _, _, h => by simp [flat] at h
-
-/-- the free names of a flat expression are its reads that are not bound -/
-theorem fv_flat : ∀ (e : Ex) (bd : List Name), flat e = true →
-    (fv e bd).2 = bd ∧ ∀ y, y ∈ (fv e bd).1 ↔ (y ∈ vars e ∧ bd.contains y = false)
-  | .lit _, bd, _ => by simp [fv, vars]
-  | .var x, bd, _ => by
-    simp only [fv, vars, true_and]
-    intro y
-    by_cases hb : bd.contains x = true
-    · simp only [hb, if_true]
-      constructor
-      · intro h; cases h
-      · rintro ⟨h1, h2⟩
-        simp only [List.mem_singleton] at h1
-        subst h1
-        rw [hb] at h2; cases h2
-    · simp only [hb]
-      simp only [Bool.not_eq_true] at hb
-      simp only [Bool.false_eq_true, if_false, List.mem_singleton]
-      constructor
-      · rintro rfl; exact ⟨rfl, hb⟩
-      · exact fun h => h.1
-  | .add a b, bd, h => by
-    simp only [flat, Bool.and_eq_true] at h
-    obtain ⟨a1, a2⟩ := fv_flat a bd h.1
-    obtain ⟨b1, b2⟩ := fv_flat b bd h.2
-    simp only [fv, vars]
-    rw [a1] at *
-    refine ⟨b1, fun y => ?_⟩
-    rw [mem_union, a2, b2]
-    simp only [List.mem_append]
-    constructor
-    · rintro (⟨h1, h2⟩ | ⟨h1, h2⟩)
-      · exact ⟨Or.inl h1, h2⟩
-      · exact ⟨Or.inr h1, h2⟩
-    · rintro ⟨h1 | h1, h2⟩
-      · exact Or.inl ⟨h1, h2⟩
-      · exact Or.inr ⟨h1, h2⟩
-  | .sub a b, bd, h => by
-    simp only [flat, Bool.and_eq_true] at h
-    obtain ⟨a1, a2⟩ := fv_flat a bd h.1
-    obtain ⟨b1, b2⟩ := fv_flat b bd h.2
-    simp only [fv, vars]
-    rw [a1] at *
-    refine ⟨b1, fun y => ?_⟩
-    rw [mem_union, a2, b2]
-    simp only [List.mem_append]
-    constructor
-    · rintro (⟨h1, h2⟩ | ⟨h1, h2⟩)
-      · exact ⟨Or.inl h1, h2⟩
-      · exact ⟨Or.inr h1, h2⟩
-    · rintro ⟨h1 | h1, h2⟩
-      · exact Or.inl ⟨h1, h2⟩
-      · exact Or.inr ⟨h1, h2⟩
-  | .lt a b, bd, h => by
-    simp only [flat, Bool.and_eq_true] at h
-    obtain ⟨a1, a2⟩ := fv_flat a bd h.1
-    obtain ⟨b1, b2⟩ := fv_flat b bd h.2
-    simp only [fv, vars]
-    rw [a1] at *
-    refine ⟨b1, fun y => ?_⟩
-    rw [mem_union, a2, b2]
-    simp only [List.mem_append]
-    constructor
-    · rintro (⟨h1, h2⟩ | ⟨h1, h2⟩)
-      · exact ⟨Or.inl h1, h2⟩
-      · exact ⟨Or.inr h1, h2⟩
-    · rintro ⟨h1 | h1, h2⟩
-      · exact Or.inl ⟨h1, h2⟩
-      · exact Or.inr ⟨h1, h2⟩
-  | .paren e, bd, h => by
-    simp only [flat] at h
-    simpa [fv, vars] using fv_flat e bd h
-  | .ite _ _ _, _, h => by simp [flat] at h
-  | .assign _ _, _, h => by simp [flat] at h
-  | .fn _ _, _, h => by simp [flat] at h
-  | .call _ _, _, h => by simp [flat] at h
-
 /-- state of the parser's frame at a line boundary, related to the bound names of the declarative
 definition -/
 def LineInv (f : PFrame) (bd : List Name) : Prop :=
@@ -306,115 +164,17 @@ def LineInv (f : PFrame) (bd : List Name) : Prop :=
 
 theorem union_nil (xs : List Name) : union xs [] = xs := rfl
 
-theorem finalize_idle (g : PFrame) (h1 : g.pendAcc = []) (h2 : g.pendAsg = []) : g.finalize = g := by
-  cases g
-  simp only at h1 h2
-  subst h1 h2
-  simp [PFrame.finalize, union]
+theorem mem_erase_append_self (l : List Name) (x y : Name) : y ∈ (l ++ [x]).erase x ↔ y ∈ l := by
+  induction l with
+  | nil => simp
+  | cons a l ih =>
+    by_cases h : a = x
+    · subst h; simp [or_comm]
+    · have hb : (a == x) = false := by simp [h]
+      simp [List.erase_cons, hb, ih]
 
-theorem fv_assign_flat (x : Name) (e : Ex) (bd : List Name) (h : flat e = true) :
-    fv (.assign x e) bd = ((fv e bd).1, ins x (fv e bd).2) := by
-  cases e <;> simp [flat] at h <;> simp [fv]
 
-theorem contains_false_iff (xs : List Name) (y : Name) : xs.contains y = false ↔ y ∉ xs := by
-  simp
-
-/-- one flat line: the invariant is kept, recorded non-locals only grow, and every free name of
-the line is recorded -/
-theorem flatLine_step (l : Ex) (f : PFrame) (bd : List Name) (h : flatLine l = true)
-    (inv : LineInv f bd) :
-    LineInv (pe l f).finalize (fv l bd).2
-    ∧ (∀ y, y ∈ f.nonLocals → y ∈ (pe l f).finalize.nonLocals)
-    ∧ (∀ y, y ∈ (fv l bd).1 → y ∈ (pe l f).finalize.nonLocals) := by
-  obtain ⟨i1, i2, i3⟩ := inv
-  -- common part: a flat expression `e` parsed in a frame `g` that agrees with `f` except for pendAsg
-  have core : ∀ (e : Ex) (g : PFrame), flat e = true → g.pendAcc = [] → g.assigned = f.assigned →
-      g.nonLocals = f.nonLocals →
-      (pe e g).finalize.pendAcc = [] ∧ (pe e g).finalize.pendAsg = []
-      ∧ (∀ y, y ∈ (pe e g).finalize.assigned ↔ y ∈ f.assigned ∨ y ∈ g.pendAsg)
-      ∧ (∀ y, y ∈ f.nonLocals → y ∈ (pe e g).finalize.nonLocals)
-      ∧ (∀ y, y ∈ (fv e bd).1 → y ∈ (pe e g).finalize.nonLocals) := by
-    intro e g he g1 g2 g3
-    obtain ⟨p1, p2, p3, p4⟩ := pe_flat e g he
-    obtain ⟨_, q2⟩ := fv_flat e bd he
-    refine ⟨rfl, rfl, fun y => ?_, fun y hy => ?_, fun y hy => ?_⟩
-    · simp only [PFrame.finalize, mem_union, p1, p3, g2]
-    · simp only [PFrame.finalize, mem_union, p2, g3]
-      exact Or.inl hy
-    · simp only [PFrame.finalize, mem_union]
-      right
-      rw [q2] at hy
-      rw [List.mem_filter, p4, g1, p1, g2]
-      refine ⟨Or.inr hy.1, ?_⟩
-      have : y ∉ f.assigned := fun hm => by
-        have := (i3 y).mp hm
-        have h2 := hy.2
-        simp at h2
-        exact h2 this
-      simp [this]
-  cases l with
-  | assign x e =>
-    simp only [flatLine] at h
-    rw [fv_assign_flat x e bd h]
-    have hg : ((f.access x).assignId x).pendAcc = [] := by
-      simp [PFrame.access, PFrame.assignId, i1, ins]
-    obtain ⟨c1, c2, c3, c4, c5⟩ := core e ((f.access x).assignId x) h hg rfl rfl
-    have hasg : ((f.access x).assignId x).pendAsg = [x] := by
-      simp [PFrame.access, PFrame.assignId, i2, ins]
-    simp only [pe]
-    rw [finalize_idle _ c1 c2]
-    refine ⟨⟨c1, c2, fun y => ?_⟩, c4, c5⟩
-    rw [c3, hasg, (fv_flat e bd h).1, mem_ins, i3]
-    simp [or_comm]
-  | lit n =>
-    obtain ⟨c1, c2, c3, c4, c5⟩ := core (.lit n) f rfl i1 rfl rfl
-    refine ⟨⟨c1, c2, fun y => ?_⟩, c4, c5⟩
-    rw [c3, i2, (fv_flat (.lit n) bd rfl).1, i3]; simp
-  | var z =>
-    obtain ⟨c1, c2, c3, c4, c5⟩ := core (.var z) f rfl i1 rfl rfl
-    refine ⟨⟨c1, c2, fun y => ?_⟩, c4, c5⟩
-    rw [c3, i2, (fv_flat (.var z) bd rfl).1, i3]; simp
-  | add a b =>
-    have he : flat (.add a b) = true := h
-    obtain ⟨c1, c2, c3, c4, c5⟩ := core (.add a b) f he i1 rfl rfl
-    refine ⟨⟨c1, c2, fun y => ?_⟩, c4, c5⟩
-    rw [c3, i2, (fv_flat (.add a b) bd he).1, i3]; simp
-  | sub a b =>
-    have he : flat (.sub a b) = true := h
-    obtain ⟨c1, c2, c3, c4, c5⟩ := core (.sub a b) f he i1 rfl rfl
-    refine ⟨⟨c1, c2, fun y => ?_⟩, c4, c5⟩
-    rw [c3, i2, (fv_flat (.sub a b) bd he).1, i3]; simp
-  | lt a b =>
-    have he : flat (.lt a b) = true := h
-    obtain ⟨c1, c2, c3, c4, c5⟩ := core (.lt a b) f he i1 rfl rfl
-    refine ⟨⟨c1, c2, fun y => ?_⟩, c4, c5⟩
-    rw [c3, i2, (fv_flat (.lt a b) bd he).1, i3]; simp
-  | paren e =>
-    have he : flat (.paren e) = true := h
-    obtain ⟨c1, c2, c3, c4, c5⟩ := core (.paren e) f he i1 rfl rfl
-    refine ⟨⟨c1, c2, fun y => ?_⟩, c4, c5⟩
-    rw [c3, i2, (fv_flat (.paren e) bd he).1, i3]; simp
-  | ite _ _ _ => simp [flatLine, flat] at h
-  | fn _ _ => simp [flatLine, flat] at h
-  | call _ _ => simp [flatLine, flat] at h
-
-theorem flatBlock_complete : ∀ (ls : List Ex) (f : PFrame) (bd : List Name),
-    flatBlock ls = true → LineInv f bd →
-    (∀ y, y ∈ f.nonLocals → y ∈ (peBlock ls f).nonLocals)
-    ∧ (∀ y, y ∈ (fvBlock ls bd).1 → y ∈ (peBlock ls f).nonLocals)
-  | [], f, bd, _, _ => by simp [peBlock, fvBlock]
-  | l :: ls, f, bd, h, inv => by
-    simp only [flatBlock, Bool.and_eq_true] at h
-    obtain ⟨s1, s2, s3⟩ := flatLine_step l f bd h.1 inv
-    obtain ⟨r1, r2⟩ := flatBlock_complete ls (pe l f).finalize (fv l bd).2 h.2 s1
-    simp only [peBlock, fvBlock]
-    refine ⟨fun y hy => r1 y (s2 y hy), fun y hy => ?_⟩
-    rw [mem_union] at hy
-    cases hy with
-    | inl hy => exact r1 y (s3 y hy)
-    | inr hy => exact r2 y hy
-
-/-! ### beyond flat bodies: inline `if` and calls (no nested function literal)
+/-! ### lines with inline `if` and calls (no nested function literal)
 
 `Step f f' rd`: what parsing a piece of an expression list does to the parser's frame, stated for the
 names that are not pending assignment targets at entry: recorded non-local accesses are never lost
@@ -464,11 +224,11 @@ theorem Step.access (f : PFrame) (x : Name) : Step f (f.access x) [x] where
   rec_keep y _ h := by
     rcases h with h | ⟨h1, h2⟩
     · exact Or.inl h
-    · exact Or.inr ⟨by simp only [PFrame.access]; rw [mem_ins]; exact Or.inr h1, h2⟩
+    · exact Or.inr ⟨by simp only [PFrame.access]; exact List.mem_append.mpr (Or.inl h1), h2⟩
   rec_new y _ hr ha := by
     simp only [List.mem_singleton] at hr
     subst hr
-    exact Or.inr ⟨by simp only [PFrame.access]; rw [mem_ins]; exact Or.inl rfl, ha⟩
+    exact Or.inr ⟨by simp only [PFrame.access]; exact List.mem_append.mpr (Or.inr (List.mem_singleton.mpr rfl)), ha⟩
   nl_mono _ h := h
 
 theorem Step.finalize (f : PFrame) : Step f f.finalize [] where
@@ -660,9 +420,9 @@ theorem fvArgs_s0 : ∀ (es : List Ex) (bd : List Name), s0Args es = true →
 end
 
 /-- a line of a body with inline `if`s and calls: an `s0` expression, or `x = e` with `e` an `s0`
-expression that is flat or does not read `x` (reading `x` after a nested list is F-C02-1) -/
+expression (which may read `x` anywhere, also after nested expression lists) -/
 def iteLine : Ex → Bool
-  | .assign x e => s0 e && (flat e || !(reads e).contains x)
+  | .assign _ e => s0 e
   | e => s0 e
 
 def iteBlock : List Ex → Bool
@@ -702,41 +462,44 @@ theorem iteLine_step (l : Ex) (f : PFrame) (bd : List Name) (h : iteLine l = tru
     ∧ (∀ y, y ∈ (fv l bd).1 → y ∈ (pe l f).finalize.nonLocals) := by
   cases l with
   | assign x e =>
-    simp only [iteLine, Bool.and_eq_true, Bool.or_eq_true] at h
-    obtain ⟨hs, hfx⟩ := h
-    rcases hfx with hfl | hnx
-    · exact flatLine_step (.assign x e) f bd hfl inv
-    · obtain ⟨i1, i2, i3⟩ := inv
-      have hnx : x ∉ reads e := by simpa using hnx
-      have hgA : ((f.access x).assignId x).pendAsg = [x] := by
-        simp [PFrame.access, PFrame.assignId, i2, ins]
-      have S := (pe_s0 e ((f.access x).assignId x) hs).trans (Step.finalize _)
-      obtain ⟨q1, q2⟩ := fv_s0 e bd hs
-      rw [fv_assign_s0 x e bd hs]
-      simp only [pe]
-      rw [finalize_idle _ rfl rfl]
-      refine ⟨⟨rfl, rfl, fun y => ?_⟩, fun y hy => S.nl_mono y hy, fun y hy => ?_⟩
-      · rw [q1, mem_ins]
-        constructor
-        · intro hh
-          rcases S.asg_sub y hh with h1 | h1
-          · exact Or.inr ((i3 y).mp h1)
-          · rw [hgA] at h1; exact Or.inl (List.mem_singleton.mp h1)
-        · intro hh
-          have : y ∈ ((f.access x).assignId x).assigned ∨ y ∈ ((f.access x).assignId x).pendAsg := by
-            rcases hh with rfl | hh
-            · right; rw [hgA]; exact List.mem_singleton.mpr rfl
-            · left; exact (i3 y).mpr hh
-          rcases S.all_keep y this with h1 | h1
-          · exact h1
-          · simp [PFrame.finalize] at h1
-      · obtain ⟨r1, r2⟩ := q2 y hy
-        have hyx : y ≠ x := fun hh => hnx (hh ▸ r1)
-        have := S.rec_new y (by rw [hgA]; simpa using hyx) (List.mem_append.mpr (Or.inl r1))
-          (fun hh => r2 ((i3 y).mp hh))
-        rcases this with h1 | ⟨h1, _⟩
-        · exact h1
-        · simp [PFrame.finalize] at h1
+    have hs : s0 e = true := h
+    obtain ⟨i1, i2, i3⟩ := inv
+    -- the frame in which the right-hand side is parsed: `x` is in progress, nothing is pending
+    let g : PFrame := ((f.access x).assignId x).beginRhs
+    have hgAcc : g.pendAcc = [] := by
+      simp [g, PFrame.beginRhs, PFrame.access, PFrame.assignId, i1]
+    have hgAsg : g.pendAsg = [] := rfl
+    have hgA : g.assigned = f.assigned := rfl
+    have hgN : g.nonLocals = f.nonLocals := rfl
+    have hids : ((f.access x).assignId x).pendAsg = [x] := by
+      simp [PFrame.access, PFrame.assignId, i2, ins]
+    have S := (pe_s0 e g hs).trans (Step.finalize _)
+    obtain ⟨q1, q2⟩ := fv_s0 e bd hs
+    rw [fv_assign_s0 x e bd hs]
+    have hpe : pe (.assign x e) f = ((pe e g).finalize).endRhs [x] := by
+      simp only [pe, hids, g]
+    rw [hpe]
+    have hfin : (((pe e g).finalize).endRhs [x]).finalize = ((pe e g).finalize).endRhs [x] := by
+      simp [PFrame.finalize, PFrame.endRhs, union]
+    rw [hfin]
+    refine ⟨⟨rfl, rfl, fun y => ?_⟩, fun y hy => ?_, fun y hy => ?_⟩
+    · simp only [PFrame.endRhs, mem_union, q1, mem_ins, List.mem_singleton]
+      constructor
+      · rintro (hh | rfl)
+        · rcases S.asg_sub y hh with h1 | h1
+          · exact Or.inr ((i3 y).mp (hgA ▸ h1))
+          · rw [hgAsg] at h1; cases h1
+        · exact Or.inl rfl
+      · rintro (rfl | hh)
+        · exact Or.inr rfl
+        · exact Or.inl (S.asg_mono y (hgA ▸ (i3 y).mpr hh))
+    · exact S.nl_mono y (hgN ▸ hy)
+    · obtain ⟨r1, r2⟩ := q2 y hy
+      have := S.rec_new y (by rw [hgAsg]; exact fun hh => by cases hh) (List.mem_append.mpr (Or.inl r1))
+        (fun hh => r2 ((i3 y).mp (hgA ▸ hh)))
+      rcases this with h1 | ⟨h1, _⟩
+      · exact h1
+      · simp [PFrame.finalize] at h1
   | lit n => exact exprLine_step _ f bd h inv
   | var z => exact exprLine_step _ f bd h inv
   | add a b => exact exprLine_step _ f bd h inv
